@@ -8,12 +8,20 @@ cd "$(dirname "$0")/.."
 for n in "$@"; do
   [ -d /tmp/wt/${n}${SUF} ] || bin/mkwt.sh ${n}${SUF} >/dev/null
   V=$(python3 - "$n" <<'PY'
-import json,glob,sys
+import json,glob,sys,os
 pid=sys.argv[1]
+anchors=set()
+for l in open('properties.jsonl'):
+    q=json.loads(l)
+    if q['id']==pid: anchors={os.path.dirname(f) for f in q['anchors']['files']}
 lines=[]
-for p in sorted(glob.glob(f'seeded/{pid}-*/meta.json')):
-    m=json.load(open(p)); lines.append("   - "+m['summary'].split(';')[0].strip()[:280]+" ("+", ".join(m.get('files',[]))+")")
-print("1b. Other engineers have ALREADY made the following changes for this property; yours must be a DIFFERENT defect (different mechanism, preferably a different function or file):\n"+"\n".join(lines)+"\n1c. Prefer code paths or input regions that ordinary use does not reach (recovery after a restart, eviction or pruning, reuse, cancellation, catching up after lagging, boundary values, rarely used modes, two functions that must agree), and a wrong *state* that only matters later over an immediately wrong answer.\n")
+for p in sorted(glob.glob('seeded/*/meta.json')):
+    m=json.load(open(p))
+    same = m['property']==pid
+    near = any(os.path.dirname(f) in anchors for f in m.get('files',[]))
+    if same or near:
+        lines.append("   - "+m['summary'].split(';')[0].strip()[:280]+" ("+", ".join(m.get('files',[]))+")")
+print("1b. Other engineers have ALREADY made the following changes in this area of the code; yours must be a DIFFERENT defect (different mechanism, preferably a different function or file):\n"+"\n".join(lines)+"\n1c. Prefer code paths or input regions that ordinary use does not reach (recovery after a restart, eviction or pruning, reuse, cancellation, catching up after lagging, boundary values, rarely used modes, two functions that must agree), and a wrong *state* that only matters later over an immediately wrong answer.\n")
 PY
 )
   python3 bin/agent_prompt.py $n $SUF "$V" > /tmp/wt/out-${n}${SUF}/TASK.md
